@@ -55,6 +55,7 @@ class Monitor(object):
     self.outstanding = []           # deferral ids not yet released
     self.deferrals_taken = 0
     self.released_inside_goingup = False
+    self.duplicate_releases = 0     # a deferral released again after it had been released
     self.quit_requested = 0
     self.quit_effective = False
     self.stats = {}
@@ -147,6 +148,12 @@ class Monitor(object):
     if self.in_goingup_delivery:
       self.released_inside_goingup = True
 
+  def deferral_rereleased(self, did):
+    """An already released deferral is released again.  The statement does not say whether that is refused
+    or ignored; it changes nothing about what is outstanding, so Up stays owed exactly once."""
+    assert did not in self.outstanding
+    self.duplicate_releases += 1
+
   def quit_attempt(self):
     """quit's worker is about to run.  Returns True when it is expected to shut the system down."""
     self.quit_requested += 1
@@ -158,7 +165,8 @@ class Monitor(object):
   def lifecycle(self, ev):
     n = self.seen.count(ev)
     self.seen.append(ev)
-    when = "release-inside-goingup" if self.released_inside_goingup else "other"
+    when = ("duplicate-release" if self.duplicate_releases else
+            "release-inside-goingup" if self.released_inside_goingup else "other")
     if n >= 1:
       self._v("lifecycle-twice", "%s raised %d times (sequence %s)" % (ev, n + 1, self.seen), event=ev, when=when)
     if ev == "GoingUpEvent":
